@@ -9,6 +9,7 @@ import Model.Math.Normal
 import Model.Math.Render
 import Model.Spec.MathSpec
 import Proofs.Lemmas.C13Exact
+import Proofs.Lemmas.C13Nothing
 
 namespace C13
 open Math
@@ -87,6 +88,68 @@ theorem exact_summary_spec {α : Type} [LinearOrder α] [Val α] [LawfulVal α] 
         rw [h1] at hlen
         have hall := List.count_eq_length.mp hlen
         exact hxy ((hall x hx).symm.trans (hall y hy))
+
+/-! ## AssumeNothing -/
+
+/-- **nothing_summary_spec** — for a sorted sample of 1..70 values in exact arithmetic and ANY
+result (LoOrder, HiOrder, confidence) of the external `QuantileCI` whose band contains the
+middle (LoOrder ≤ ⌈n/2⌉ and ⌊n/2⌋ + 1 ≤ HiOrder — for even n the upper end must reach the
+upper middle value, which is what `QuantileCI` returns; ⌈n/2⌉ ≤ HiOrder alone is not enough):
+the summary exists (no index panic), its centre is the sample median, Lo / Hi are values of the
+sample or −∞ / +∞, Lo ≤ centre ≤ Hi, the reported confidence is the external one, and a warning
+is present exactly when an end is infinite. -/
+theorem nothing_summary_spec {K : Type} [Field K] [LinearOrder K] [IsStrictOrderedRing K] [Val K] [LawfulInterp K]
+    (s : Sample K) (conf : F64.Bits) (ci : Nothing.QCI) (tab : List (Nat × Nat))
+    (hs : s.values.Pairwise (· ≤ ·)) (h1 : 1 ≤ s.values.length) (h70 : s.values.length ≤ 70)
+    (hlo : ci.loOrder ≤ (s.values.length + 1) / 2) (hhi : s.values.length / 2 + 1 ≤ ci.hiOrder) :
+    ∃ r, Nothing.summary s conf ci tab = some r ∧
+      r.center = medianSpec s.values ∧
+      (r.lo = .negInf ∨ ∃ a ∈ s.values, r.lo = .fin a) ∧
+      (r.hi = .posInf ∨ ∃ a ∈ s.values, r.hi = .fin a) ∧
+      Ext.le r.lo (.fin r.center) ∧ Ext.le (.fin r.center) r.hi ∧
+      r.confidence = ci.confidence ∧
+      (r.warnings ≠ [] ↔ (r.lo = .negInf ∨ r.hi = .posInf)) := by
+  obtain ⟨xs, t⟩ := s
+  simp only at hs h1 h70 hlo hhi
+  have hmb := median_bounds xs hs h1
+  unfold Nothing.summary Nothing.sampleCI
+  simp only [quantileHalf_eq xs h1 h70]
+  have hhi0 : (ci.hiOrder == 0) = false := by simp; omega
+  simp only [hhi0]
+  by_cases hl : ci.loOrder < 1
+  · by_cases hh : ci.hiOrder - 1 ≥ xs.length
+    · simp only [hl, hh, if_true]
+      refine ⟨_, rfl, rfl, Or.inl rfl, Or.inl rfl, trivial, trivial, rfl, ?_⟩
+      simp [Ext.isInf]
+    · have hlt : ci.hiOrder - 1 < xs.length := by omega
+      simp only [hl, hh, if_true, if_false, List.getElem?_eq_getElem hlt, Option.map_some]
+      refine ⟨_, rfl, rfl, Or.inl rfl, Or.inr ⟨_, List.getElem_mem hlt, rfl⟩, trivial, ?_, rfl, ?_⟩
+      · show medianSpec xs ≤ xs[ci.hiOrder - 1]
+        have := sorted_getD_le xs hs (xs.length / 2) (ci.hiOrder - 1) (by omega) hlt
+        rw [getD_of_lt _ _ _ hlt] at this
+        exact le_trans hmb.2 this
+      · simp [Ext.isInf]
+  · have hllt : ci.loOrder - 1 < xs.length := by omega
+    by_cases hh : ci.hiOrder - 1 ≥ xs.length
+    · simp only [hl, hh, if_true, if_false, List.getElem?_eq_getElem hllt, Option.map_some]
+      refine ⟨_, rfl, rfl, Or.inr ⟨_, List.getElem_mem hllt, rfl⟩, Or.inl rfl, ?_, trivial, rfl, ?_⟩
+      · show xs[ci.loOrder - 1] ≤ medianSpec xs
+        have := sorted_getD_le xs hs (ci.loOrder - 1) ((xs.length - 1) / 2) (by omega) (by omega)
+        rw [getD_of_lt _ _ _ hllt] at this
+        exact le_trans this hmb.1
+      · simp [Ext.isInf]
+    · have hlt : ci.hiOrder - 1 < xs.length := by omega
+      simp only [hl, hh, if_false, List.getElem?_eq_getElem hllt, List.getElem?_eq_getElem hlt, Option.map_some]
+      refine ⟨_, rfl, rfl, Or.inr ⟨_, List.getElem_mem hllt, rfl⟩, Or.inr ⟨_, List.getElem_mem hlt, rfl⟩, ?_, ?_, rfl, ?_⟩
+      · show xs[ci.loOrder - 1] ≤ medianSpec xs
+        have := sorted_getD_le xs hs (ci.loOrder - 1) ((xs.length - 1) / 2) (by omega) (by omega)
+        rw [getD_of_lt _ _ _ hllt] at this
+        exact le_trans this hmb.1
+      · show medianSpec xs ≤ xs[ci.hiOrder - 1]
+        have := sorted_getD_le xs hs (xs.length / 2) (ci.hiOrder - 1) (by omega) hlt
+        rw [getD_of_lt _ _ _ hlt] at this
+        exact le_trans hmb.2 this
+      · simp [Ext.isInf]
 
 /-! ## the significance threshold is carried -/
 
